@@ -94,6 +94,7 @@ class Interp:
         self.config = config or {}
         self.aliases = []
         self.lambdas = {}
+        self.modconst = {}
         self.frames = {}
         self.lpstore = {}      # id -> current value of a mutable LpAffineExpression object (PuLP's += is in place)
         ENUM_CLASSES.update(c for c in repo.classes if self._is_enum(c))
@@ -174,7 +175,34 @@ class Interp:
             if v[0] == 'ref':
                 return self.lookup(v[2], self.frames[v[1]])
             return self.deref(v)
+        g = self.module_constant(name, fr)
+        if g is not None:
+            return g
         return S(name)
+
+    def module_constant(self, name, fr):
+        """Top-level `NAME = <literal built from constants / enum members>` of a repository module (own module first)."""
+        if name in self.modconst:
+            return self.modconst[name]
+        found = []
+        order = sorted(self.repo.trees, key=lambda r: (r != getattr(fr.func, 'relpath', None), r))
+        for rel in order:
+            for n in self.repo.trees[rel].body:
+                if isinstance(n, ast.Assign) and len(n.targets) == 1 and isinstance(n.targets[0], ast.Name) and n.targets[0].id == name:
+                    found.append(n.value)
+            if found:
+                break
+        val = None
+        if len(found) == 1 and isinstance(found[0], (ast.Tuple, ast.List, ast.Dict, ast.Constant, ast.Attribute, ast.Set)):
+            try:
+                self.modconst[name] = None
+                val = self.ex(found[0], Frame(fr.func, {}))
+                if isinstance(found[0], ast.Set):
+                    val = None
+            except Unknown:
+                val = None
+        self.modconst[name] = val
+        return val
 
     def callee_mutates(self, target, param):
         for n in ast.walk(target.node):
@@ -477,6 +505,8 @@ class Interp:
         return t
 
     def resolve_method(self, recv, meth, nargs, fr):
+        if recv[0] == 'sym' and recv[1] in self.repo.classes and meth in self.repo.classes[recv[1]] and recv[1] not in fr.env:
+            return self.repo.classes[recv[1]][meth]
         if recv == fr.env.get('self') and fr.cls and meth in self.repo.classes.get(fr.cls, {}):
             return self.repo.classes[fr.cls][meth]
         if recv[0] == 'obj' and meth in self.repo.classes.get(recv[1], {}):
@@ -491,7 +521,9 @@ class Interp:
             hint = RECV_HINT.get(recv[2])
         elif recv[0] == 'sym':
             hint = RECV_HINT.get(recv[1])
-        ar = [c for c in cands if len(c.params) - 1 - len(c.node.args.defaults) <= nargs <= len(c.params) - 1]
+        def np_(c):
+            return len(c.params) - (0 if c.is_static else 1)
+        ar = [c for c in cands if np_(c) - len(c.node.args.defaults) <= nargs <= np_(c)]
         if hint:
             h = [c for c in ar if c.cls == hint]
             if len(h) == 1:
@@ -517,8 +549,8 @@ class Interp:
             return TOP('inline-bound ' + target.qualname)
         params = target.params
         env = {}
-        if target.cls and params and params[0] == 'self':
-            env['self'] = recv if recv is not None else S('self')
+        if target.cls and not target.is_static and params and (params[0] == 'self' or target.is_classmethod):
+            env[params[0]] = recv if recv is not None else S('self')
             params = params[1:]
         dmap = {}
         for p, d in zip(reversed(target.node.args.args), reversed(target.node.args.defaults)):
